@@ -36,6 +36,10 @@ func Registry() []*Spec {
 		Quick: map[string]int{}, Thorough: map[string]int{},
 		Covers: []string{"valid", "invalid"}, UnitDepth: 3,
 		Note: "15 JSON skeletons (7..17 bytes: strings, keys, escapes, literals, numbers with fraction and exponent, nesting) with free symbolic bytes at the marked places, delivered whole / byte by byte / split at every position: all JSON front-ends vs oj.Parse, and (on every such input, JSON or SEN-only) sen.Parse vs sen.ParseReader vs sen.Tokenizer{OnlyOne}.Parse/.Load + Builder"})
+	add(Spec{Property: "C01", Name: "VerifC03_Templates", Pkg: "asm",
+		Quick: map[string]int{}, Thorough: map[string]int{},
+		Covers: []string{"valid", "invalid"}, UnitDepth: 3, Asserts: []string{"accept-iff-valid"},
+		Note: "the 15 JSON skeletons of the C03 templates harness (7..17 bytes with free symbolic bytes in strings, keys, escapes, \\u hex digits, literals, numbers with fraction and exponent, nested values), whole and chunked: every strict front-end accepts iff the RFC 8259 reference does"})
 	add(Spec{Property: "C03", Name: "VerifC03_Multi", Pkg: "asm",
 		Quick: map[string]int{"N": 3}, Thorough: map[string]int{"N": 4},
 		Covers: []string{"valid", "invalid"}, UnitDepth: 3,
